@@ -37,6 +37,23 @@ def recvOrder (s : Recv.St String) : List String := sortStrsL (s.dls.map Prod.fs
 
 def recvQuiesce (s : Recv.St String) : Recv.St String := (quiesceOrd (recvOrder s) s).2
 
+/-- quiesce with the order in which the real downloaders were observed to get their turn (trace
+    validation: which downloader wins a token is the Go scheduler's choice); `ord=a,b,…`, the
+    remaining downloaders follow in lexicographic order -/
+def recvQuiesceH (hint : Option String) (s : Recv.St String) : Recv.St String :=
+  match hint with
+  | none => recvQuiesce s
+  | some h =>
+    let first := ((h.drop 4).toString.splitOn ",").filter (· ≠ "")
+    let order := first ++ (recvOrder s).filter (fun d => !first.contains d)
+    (quiesceOrd order s).2
+
+/-- split a trailing `ord=…` argument off -/
+def splitHint (a : List String) : List String × Option String :=
+  match a.getLast? with
+  | some l => if l.startsWith "ord=" then (a.dropLast, some l) else (a, none)
+  | none => (a, none)
+
 def recvClose (s : Recv.St String) : Recv.St String := (Recv.step s .close).getD s
 
 def nameOut (n : String × Nat) : String := s!"{n.1}@{n.2}"
@@ -49,7 +66,8 @@ def recvStateOut (s : Recv.St String) : String :=
   let held := match s.holding with | some n => nameOut n | none => "-"
   s!"ok dl={s.dlFree}/{s.dlLimit} dc={s.dcFree}/{s.dcLimit} pending={namesOut s.pending} corrupt={namesOut s.corrupt} seen={namesOut s.lastSeen} held={held}"
 
-def opRecv (op : String) (a : List String) (st : DrvState) : Option (DrvState × String) :=
+def opRecv (op : String) (a0 : List String) (st : DrvState) : Option (DrvState × String) :=
+  let (a, hint) := splitHint a0
   match op, a with
   | "recv.new", [own, dl, dc] => do
     let dl ← natArg dl
@@ -75,10 +93,16 @@ def opRecv (op : String) (a : List String) (st : DrvState) : Option (DrvState ×
     let inc ← boolArg inc
     let fails ← boolArg fails
     let s' ← Recv.step s (.runOnce inc (!fails))
-    pure ({ st with recv := some (recvQuiesce s') }, if fails then "err list" else "ok")
+    pure ({ st with recv := some (recvQuiesceH hint s') }, if fails then "err list" else "ok")
+  | "recv.runrm", [inst, ts] => do
+    -- a successful listing, then the named blob vanishes before any downloader loads it
+    let s ← st.recv
+    let s' ← Recv.step s (.runOnce false true)
+    let s'' ← Recv.step s' (.rm inst (← natArg ts))
+    pure ({ st with recv := some (recvQuiesceH hint s'') }, "ok")
   | "recv.next", [who] => do
     let s ← st.recv
-    let s := recvQuiesce (recvClose s)
+    let s := recvQuiesceH hint (recvClose s)
     let who : Option String :=
       if who == "-" then none
       else if who == "?" then (sortStrsL (s.pending.map Prod.fst)).head?
@@ -91,10 +115,25 @@ def opRecv (op : String) (a : List String) (st : DrvState) : Option (DrvState ×
       | _, _ => pure ({ st with recv := some s }, "ok none")
   | "recv.close", [] => do
     let s ← st.recv
-    pure ({ st with recv := some (recvQuiesce (recvClose s)) }, "ok")
+    pure ({ st with recv := some (recvQuiesceH hint (recvClose s)) }, "ok")
   | "recv.state", [] => do
     let s ← st.recv
     pure (st, recvStateOut s)
+  | "prop.c16.delivered", [own] => do
+    -- the statement of C16_progress_delivery evaluated on the model's state: when the receiver
+    -- is settled (every downloader waiting on an empty signal channel, nothing pending or held,
+    -- the last listing is what a listing would give now with every corrupt name ignored), the
+    -- newest decodable blob of every other instance has been delivered
+    let s ← st.recv
+    let ig := ignoredNow s
+    let fresh := mkLastSeen ((s.bucket.map Blob.name).filter (fun n => !ig.contains n))
+    let atRest := s.dls.all (fun p => !p.2.busy) && s.pending.isEmpty && s.holding.isNone
+    if !(atRest && namesOut fresh == namesOut s.lastSeen) then pure (st, "ok not-at-rest")
+    else
+      let others := (s.bucket.filter (fun b => !b.bad && b.inst != own)).map (·.inst) |>.eraseDups
+      let newest (d : String) : Nat := (s.bucket.filter (fun b => !b.bad && b.inst == d)).foldl (fun m b => max m b.ts) 0
+      let miss := others.filter fun d => !s.delivered.contains (d, newest d)
+      if miss.isEmpty then pure (st, "ok") else pure (st, "FAIL newest-decodable-snapshot-never-delivered")
   | "prop.c16.check", [] => do
     -- the token accounting of C16_tokens / C16_no_leak, evaluated on the model's state
     let s ← st.recv
